@@ -14,113 +14,11 @@
 #include "llbuild/Core/VerifHooks.h"
 #endif
 
-#include <algorithm>
-#include <atomic>
-#include <chrono>
-#include <condition_variable>
-#include <csignal>
-#include <cstdio>
-#include <cstdlib>
-#include <cstring>
-#include <deque>
-#include <fstream>
-#include <iostream>
-#include <map>
-#include <mutex>
-#include <random>
-#include <set>
-#include <sstream>
-#include <string>
-#include <thread>
-#include <fcntl.h>
-#include <unistd.h>
-#include <vector>
 
 using namespace llbuild;
 using namespace llbuild::core;
 
-// ---------------------------------------------------------------- logging
-static int outFd = 1;
-static bool unbuffered = false;
-static std::string outBuf;
-static std::mutex logMutex;          // every line is written under this mutex
-static long seqNo = 0;
-
-static void flushOut() {
-  size_t off = 0;
-  while (off < outBuf.size()) {
-    ssize_t n = ::write(outFd, outBuf.data() + off, outBuf.size() - off);
-    if (n <= 0) break;
-    off += n;
-  }
-  outBuf.clear();
-}
-static void emitLocked(const std::string& s) {
-  ++seqNo;
-  outBuf += s;
-  outBuf += '\n';
-  if (unbuffered || outBuf.size() > (1 << 16)) flushOut();
-}
-static bool quietLog = false;       // set while an unlogged from-scratch reference build runs
-static void emit(const std::string& s) {
-  if (quietLog) return;
-  std::lock_guard<std::mutex> g(logMutex);
-  emitLocked(s);
-}
-static std::string q(const std::string& s) { return "\"" + s + "\""; }
-static std::string hexOf(const std::string& s) {
-  static const char* d = "0123456789abcdef"; std::string r;
-  for (unsigned char c : s) { r += d[c >> 4]; r += d[c & 15]; }
-  return r;
-}
-static std::string unhex(const std::string& h) {
-  std::string r;
-  for (size_t i = 0; i + 1 < h.size(); i += 2) r += (char)std::stoi(h.substr(i, 2), nullptr, 16);
-  return r;
-}
-
-[[noreturn]] static void die(int code, const char* ev) {
-  // async-signal-safe enough for our purposes: single write of a constant line
-  flushOut();
-  std::string s = std::string("{\"e\":\"") + ev + "\"}\n";
-  ssize_t r = ::write(outFd, s.data(), s.size()); (void)r;
-  _exit(code);
-}
-static void onAlarm(int) { die(3, "Hang"); }
-static void onAbort(int) { die(4, "Abort"); }
-
-// ---------------------------------------------------------------- program
-struct Req { std::string k; std::string kind; };
-struct RuleDef {
-  bool leaf = false;
-  std::vector<Req> start, dynThen, dynElse;
-  std::string dynOn = "none";
-  std::vector<std::string> disc;
-  std::set<std::string> proj;
-  int base = 0; bool force = false; bool valid = true; uint64_t sig = 1;
-};
-static std::map<std::string, RuleDef> prog;       // symbolic key -> rule
-static std::map<std::string, int> ext;            // leaf -> value
-static std::map<std::string, std::string> keyBytes, bytesKey;   // symbolic <-> actual key bytes
-static std::vector<std::string> valBytes = {std::string(), std::string("\x01", 1), std::string("\x02", 1)};
-static const int NVALS = 3;
-
-static std::string symOf(const std::string& bytes) {
-  auto it = bytesKey.find(bytes);
-  if (it != bytesKey.end()) return it->second;
-  if (keyBytes.empty() && prog.count(bytes)) return bytes;
-  return "?" + hexOf(bytes);
-}
-static std::string bytesOf(const std::string& sym) {
-  auto it = keyBytes.find(sym);
-  return it == keyBytes.end() ? sym : it->second;
-}
-static ValueType V(int v) { const std::string& b = valBytes[v]; return ValueType(b.begin(), b.end()); }
-static int I(const ValueType& v) {
-  std::string s(v.begin(), v.end());
-  for (int i = 0; i < (int)valBytes.size(); ++i) if (valBytes[i] == s) return i;
-  return 77;   // not a value of the program: the specification will reject the event
-}
+#include "driver_common.h"
 
 // ---------------------------------------------------------------- schedule control
 enum Mode { SYNC, DET, THR };
@@ -151,7 +49,7 @@ static void point() {           // a place where a synchronous cancel may be inj
 }
 
 struct ScriptTask;
-struct PendingCompletion { ScriptTask* task; TaskInterface ti; std::string key; int value; bool force; std::vector<std::string> disc; };
+struct PendingCompletion { ScriptTask* task; TaskInterface ti; std::string key; int value; bool force; std::vector<std::string> disc; bool writesOut; };
 static std::vector<PendingCompletion> pending;       // DET mode: completions not yet delivered
 static void deliver(size_t idx);
 
@@ -162,6 +60,7 @@ static std::atomic<int> thrSeed{0};
 
 static void doComplete(PendingCompletion& pc) {
   // discovered dependencies, then complete; each announced before the call
+  if (pc.writesOut) ext[pc.key] = pc.value;      // the task's side effect on external state (its "output file")
   for (auto& d : pc.disc) {
     emit("{\"e\":\"Disc\",\"k\":" + q(pc.key) + ",\"d\":" + q(d) + "}");
     pc.ti.discoveredDependency(bytesOf(d));
@@ -173,7 +72,7 @@ static void doComplete(PendingCompletion& pc) {
 static void workerMain(int id) {
   std::mt19937 rng(thrSeed.load() * 977 + id);
   while (true) {
-    PendingCompletion pc{nullptr, TaskInterface(nullptr, nullptr), "", 0, false, {}};
+    PendingCompletion pc{nullptr, TaskInterface(nullptr, nullptr), "", 0, false, {}, false};
     {
       std::unique_lock<std::mutex> l(wqMutex);
       wqCv.wait(l, [] { return wqStop || !wq.empty(); });
@@ -217,13 +116,13 @@ struct ScriptTask : Task {
   void inputsAvailable(TaskInterface ti) override {
     emit("{\"e\":\"Avail\",\"k\":" + q(key) + "}");
     point();
-    PendingCompletion pc{this, ti, key, 0, false, {}};
+    PendingCompletion pc{this, ti, key, 0, false, {}, false};
     if (def->leaf) pc.value = ext[key];
     else {
       int s = def->base;
       for (size_t i = 0; i < reqs.size(); ++i) if (reqs[i].kind != "follow" && def->proj.count(reqs[i].k)) s += got[i];
       for (auto& d : def->disc) s += ext[d];
-      pc.value = s % NVALS; pc.force = def->force; pc.disc = def->disc;
+      pc.value = s % NVALS; pc.force = def->force; pc.disc = def->disc; pc.writesOut = def->out;
     }
     if (mode == SYNC) { doComplete(pc); return; }
     if (mode == DET) {
@@ -249,7 +148,7 @@ struct ScriptRule : Rule {
   Task* createTask(BuildEngine&) override { emit("{\"e\":\"Create\",\"k\":" + q(sym) + "}"); return new ScriptTask(sym); }
   bool isResultValid(BuildEngine&, const ValueType& v) override {
     RuleDef& d = prog[sym];
-    bool b = d.leaf ? (I(v) == ext[sym]) : d.valid;
+    bool b = d.leaf ? (I(v) == ext[sym]) : (d.valid && (!d.out || I(v) == ext[sym]));
     emit("{\"e\":\"Valid\",\"k\":" + q(sym) + ",\"b\":" + (b ? "true" : "false") + "}");
     point();
     return b;
@@ -427,29 +326,6 @@ static void engineHook(int pt) {
 #endif
 }
 
-// ---------------------------------------------------------------- case file parsing and execution
-static std::map<std::string, std::string> kv(const std::vector<std::string>& toks, size_t from) {
-  std::map<std::string, std::string> m;
-  for (size_t i = from; i < toks.size(); ++i) { auto p = toks[i].find('='); if (p != std::string::npos) m[toks[i].substr(0, p)] = toks[i].substr(p + 1); }
-  return m;
-}
-static std::vector<std::string> split(const std::string& s, char c) {
-  std::vector<std::string> r; std::string cur; for (char x : s) { if (x == c) { if (!cur.empty()) r.push_back(cur); cur.clear(); } else cur += x; }
-  if (!cur.empty()) r.push_back(cur); return r;
-}
-static std::vector<Req> parseReqs(const std::string& s) {
-  std::vector<Req> r; for (auto& t : split(s, ',')) { auto p = t.find(':'); r.push_back({t.substr(0, p), t.substr(p + 1)}); } return r;
-}
-static void parseRule(const std::vector<std::string>& toks) {
-  RuleDef d; auto m = kv(toks, 2);
-  d.leaf = m["leaf"] == "1"; d.sig = m.count("sig") ? std::stoull(m["sig"]) : 1;
-  d.base = m.count("base") ? std::stoi(m["base"]) : 0; d.force = m["force"] == "1"; d.valid = m["valid"] != "0";
-  d.start = parseReqs(m["start"]); d.dynOn = m.count("dyn") && !m["dyn"].empty() ? m["dyn"] : "none";
-  d.dynThen = parseReqs(m["then"]); d.dynElse = parseReqs(m["else"]);
-  d.disc = split(m["disc"], ','); for (auto& p : split(m["proj"], ',')) d.proj.insert(p);
-  prog[toks[1]] = d;
-}
-
 int main(int argc, char** argv) {
   if (argc < 2) { fprintf(stderr, "usage: engine_driver <casefile> [out.ndjson]\n"); return 2; }
   if (argc > 2) { outFd = ::open(argv[2], O_WRONLY | O_CREAT | O_TRUNC, 0644); if (outFd < 0) { perror("open"); return 2; } }
@@ -532,14 +408,14 @@ int main(int argc, char** argv) {
           });
         }
       }
-      emit("{\"e\":\"Build\",\"k\":" + q(toks[1]) + "}");
+      emit("{\"e\":\"Build\",\"k\":" + q(toks[1]) + ",\"sc\":" + std::to_string(shimCount()) + "}");
       const ValueType& v = engine->build(bytesOf(toks[1]));
       int iv = I(v);
       if (canceller.joinable()) canceller.join();
       if (mode == THR) stopWorkers();
       emit(std::string("{\"e\":\"Return\",\"v\":") + std::to_string(iv) + ",\"cancelled\":" + (engine->isCancelled() ? "true" : "false") +
            ",\"cycle\":" + (sawCycle ? "true" : "false") + ",\"error\":" + (sawError ? "true" : "false") +
-           ",\"pending\":" + std::to_string(pending.size()) + ",\"points\":" + std::to_string(pointNo) + "}");
+           ",\"pending\":" + std::to_string(pending.size()) + ",\"points\":" + std::to_string(pointNo) + ",\"sc\":" + std::to_string(shimCount()) + "}");
       pending.clear();
       if (m["verify"] == "1" && !sawCycle && !sawError && !engine->isCancelled()) {
         // differential oracle: a brand-new engine without history builds the same key
